@@ -181,8 +181,9 @@ class Evaluator:
         self.sites = sorted({m.pos for m in self.muts})
         self.obs = {}
         for m in self.muts + [Mutation(p, "_") for p in self.sites]:
-            sc = cov.single_copy(m, self.cn)
-            self.obs[m] = cov[m] / sc if sc > 0 else 0.0
+            # observed copies = share of the site's depth x copies the structure has there (restated)
+            k_ = self.cn.position_cn(m.pos)
+            self.obs[m] = (cov[m] * k_ / max(1, cov.total(m))) if k_ else 0.0
         self.major_counts = Counter()
         for a, n in major_sol.solution.items():
             self.major_counts[a.major] += n
